@@ -132,17 +132,41 @@ def run_backup(job):
 
         pending = list(zip(placement, steps))
         state = {'n': 0, 'armed': False}
+        events = []          # what really happened, in order, as DosBackup actions (BackupConf)
+        expand = {'add': lambda key: [{'e': 'add', 'k': key}],
+                  'pack': lambda key: [{'e': 'pstart'}, {'e': 'pappend'}, {'e': 'pcommit'}],
+                  'packz': lambda key: [{'e': 'pstart'}, {'e': 'pappend'}, {'e': 'pcommit'}],
+                  'packpp': lambda key: [{'e': 'pstart'}, {'e': 'pappend'}, {'e': 'pcommit'}, {'e': 'cstart'}, {'e': 'cleanall'}],
+                  'clean': lambda key: [{'e': 'cstart'}, {'e': 'cleanall'}],
+                  'direct': lambda key: [{'e': 'dappend', 'k': key}, {'e': 'dcommit'}],
+                  'directz': lambda key: [{'e': 'dappend', 'k': key}, {'e': 'dcommit'}]}
+
+        def classify(src, extra_args):
+            name = os.path.basename(str(src).rstrip('/'))
+            if name == 'loose':
+                return {'e': 'loose'}
+            if name == 'packs.idx':
+                return {'e': 'idx'}
+            if name == 'packs':
+                return {'e': 'packs'}
+            excluded = set((extra_args or [])[1::2])
+            return {'e': 'rest', 'live': not {'packs.idx-wal', 'packs.idx-shm'} <= excluded}
 
         def hook(position):
             if not state['armed']:
                 return
             while pending and pending[0][0] == position:
-                do(pending.pop(0)[1])
+                step = pending.pop(0)[1]
+                do(step)
+                kind, _, key = step.partition(':')
+                events.extend(expand[kind](key))
 
         class SteppedManager(backup_utils.BackupManager):
             def call_rsync(self, *args, **kwargs):
                 state['n'] += 1
                 hook({1: 'before-loose', 2: 'after-dump', 3: 'before-packs', 4: 'before-rest'}.get(state['n'], ''))
+                if state['armed']:
+                    events.append(classify(args[0] if args else kwargs.get('src'), kwargs.get('extra_args')))
                 super().call_rsync(*args, **kwargs)
                 if state['n'] == 4:
                     hook('after-rest')
@@ -151,6 +175,8 @@ def run_backup(job):
 
         def dump(src, dst):
             hook('before-dump')
+            if state['armed']:
+                events.append({'e': 'dump'})
             return real_dump(src, dst)
 
         backup_utils._sqlite_backup = dump  # pylint: disable=protected-access
@@ -173,6 +199,12 @@ def run_backup(job):
                 before = before + (['k6'] if 'direct:k6' not in steps else ['k3'])
                 state['n'] = 0
             state['armed'] = True
+            key_name = {hashlib.sha256(table[k]).hexdigest(): k for k in UNIVERSE}
+            start = project.project(folder)
+            line['loose0'] = sorted(key_name.get(k, k[:8]) for k in start['loose'])
+            line['packed0'] = [key_name.get(r['hashkey'], r['hashkey'][:8])
+                               for r in sorted(start['rows'], key=lambda r: (r['pack_id'], r['offset']))]
+            events.append({'e': 'begin'})
             target = os.path.join(dest, 'b1')
             try:
                 backup_utils.backup_container(manager, source, type(source.get_folder())(target),
@@ -192,6 +224,8 @@ def run_backup(job):
         else:
             obs, views, listed, val = examine(target, table)
             line.update(obs=obs, views=views, listed=listed, val=val)
+            events.append({'e': 'end', 'loose': [x['k'] for x in obs['loose']], 'rows': [x['k'] for x in obs['rows']]})
+            line['lines'] = events
             line['extra_files'] = sorted(f for f in os.listdir(target) if f.startswith('packs.idx-'))
     return line
 
@@ -200,6 +234,67 @@ def placements(n_steps):
     idx = range(len(POSITIONS))
     for combo in itertools.combinations_with_replacement(idx, n_steps):
         yield [POSITIONS[i] for i in combo]
+
+
+DESIGN_CONFIGS = [('MC_Backup', True), ('MC_BackupDev_LiveIndex', False), ('MC_BackupDev_IndexFirst', False),
+                  ('MC_BackupDev_PacksFirst', False)]
+
+
+def design(report):
+    """DosBackup: every interleaving of the backup's phases (file-by-file loose copy, pack copied up to any length it had
+    during the phase) with add / pack / clean / direct-add steps.  The deviations (another phase order, copying the live
+    index at the end) must break BackupValid, otherwise the model would not be able to see the defect class."""
+    out = []
+    for cfg, must_hold in DESIGN_CONFIGS:
+        res = tlc.run('MC_Backup', cfg + '.cfg', workers=8, timeout=1200)
+        if res.timeout or (res.error_lines and not res.violated):
+            tlc.machinery_failure(res, cfg)
+        held = not res.violated
+        out.append({'config': cfg, 'expected': 'holds' if must_hold else 'violated', 'held': held, **res.summary()})
+        if must_hold and not held:
+            print(f'DESIGN-COUNTEREXAMPLE property={report.prop} config={cfg} invariant={res.violated}')
+        if not must_hold and held:
+            print(f'MODEL-TOO-WEAK property={report.prop} config={cfg}: the deviation no longer breaks BackupValid')
+        report.add('states', res.distinct)
+        report.add('transitions', res.generated)
+    report.set('design_model', out)
+
+
+def conformance(lines, report):
+    """BackupConf: every completed real backup, as the sequence of DosBackup actions it really performed."""
+    traces = [l for l in lines if not l['failed'] and 'lines' in l]
+    with common.scratch('bkc') as work:
+        trace_file = os.path.join(work, 'conf.ndjson')
+        with open(trace_file, 'w', encoding='utf8') as handle:
+            for line in traces:
+                handle.write(json.dumps({'lines': line['lines'], 'loose0': line['loose0'], 'packed0': line['packed0']}) + '\n')
+        with open(os.path.join(work, 'MCBackupConf.tla'), 'w', encoding='utf8') as handle:
+            names = ', '.join(f'"{k}"' for k in UNIVERSE)
+            handle.write('---- MODULE MCBackupConf ----\nEXTENDS BackupConf\n'
+                         f'MCKeys == {{{names}}}\nOrderCode == <<"loose", "dump", "idx", "packs", "rest">>\n====\n')
+        with open(os.path.join(work, 'MCBackupConf.cfg'), 'w', encoding='utf8') as handle:
+            handle.write('SPECIFICATION CSpec\nCONSTANTS\n  Keys <- MCKeys\n  Loose0 <- MCKeys\n  Packed0 <- OrderCode\n'
+                         '  AddKeys <- MCKeys\n  DirectKeys <- MCKeys\n  PackRounds = 9\n  CleanRounds = 9\n  Order <- OrderCode\n'
+                         '  RestCopiesLiveIndex = FALSE\nCONSTRAINT Track\nPOSTCONDITION Report\nCHECK_DEADLOCK FALSE\n')
+        res = tlc.run('MCBackupConf', 'MCBackupConf.cfg', workers=1, timeout=900, cwd=work, env={'TRACE_FILE': trace_file},
+                      java_opts=[f'-DTLA-Library={common.SPEC}'])
+    reached = {int(t): (int(got), int(total)) for t, got, total in re.findall(r'<<"REACHED", (\d+), (\d+), (\d+)>>', res.output)}
+    if res.timeout or res.error_lines or len(reached) != len(traces):
+        tlc.machinery_failure(res, 'BackupConf')
+    stuck = []
+    for t, (got, total) in sorted(reached.items()):
+        if got < total:
+            trace = traces[t - 1]
+            stuck.append({'script': trace['script'], 'placement': trace['placement'], 'incremental': trace['incremental'],
+                          'at': got, 'line': trace['lines'][got], 'lines': [e['e'] for e in trace['lines']]})
+    for item in stuck[:3]:
+        print(f"MODEL-DRIFT property={report.prop} at=backup {item['script']} {item['placement']} line {item['at']} "
+              f"{json.dumps(item['line'])} of {item['lines']}: not an enabled DosBackup action (phase order, what the last "
+              'phase copies, or the backup\'s final content differ from the model)')
+    report.set('conformance', {'spec': 'BackupConf', 'backups': len(traces), 'conform': len(traces) - len(stuck),
+                               'stuck': stuck[:5], **res.summary()})
+    report.add('states', res.distinct)
+    report.add('transitions', res.generated)
 
 
 def check_C15(report: common.Report):
@@ -250,6 +345,8 @@ def check_C15(report: common.Report):
                          f"(incremental={line['incremental']}): val={line['val']} bad={bad} listed={line['listed']} "
                          f"side files={line.get('extra_files')} obs={json.dumps(line['obs'])[:500]}")
     failed = sum(1 for l in lines if l['failed'])
+    conformance(lines, report)
+    design(report)
     report.set('evaluations', len(lines))
     report.set('distinct_nontrivial', len(lines) - failed)
     report.set('backups_taken', len(lines))
